@@ -290,10 +290,62 @@ class Handle:
         return True
 
 
+class _DirEntry:
+    def __init__(self, fs, parent, name):
+        self.fs, self.name, self.path = fs, name, parent + '/' + name
+
+    def is_file(self, **kw):
+        return self.path in self.fs.files
+
+    def is_dir(self, **kw):
+        return self.path in self.fs.dirs
+
+    def stat(self, **kw):
+        if self.path in self.fs.files:
+            return StatResult(len(self.fs.files[self.path].data), False)
+        return StatResult(0, True)
+
+
 class StatResult:
     def __init__(self, size, isdir):
         self.st_size = size
         self.st_mode = (statmod.S_IFDIR if isdir else statmod.S_IFREG) | 0o644
+
+
+class ModelOSPath:
+    """``os.path`` over the model file system: the queries that touch the file system are answered by the model, the
+    purely lexical functions are the real ones"""
+
+    def __init__(self, fs):
+        import os as _os
+
+        self.fs, self._real = fs, _os.path
+
+    def __getattr__(self, name):
+        if name in ('join', 'basename', 'dirname', 'split', 'splitext', 'normpath', 'abspath', 'realpath', 'sep', 'relpath',
+                    'commonpath', 'commonprefix', 'isabs', 'expanduser'):
+            return getattr(self._real, name)
+        raise AttributeError('os.path.%s is not modelled (vf/menv.py ModelOSPath)' % name)
+
+    def exists(self, path):
+        self.fs.observe()
+        return str(path) in self.fs.files or str(path) in self.fs.dirs
+
+    lexists = exists
+
+    def isfile(self, path):
+        self.fs.observe()
+        return str(path) in self.fs.files
+
+    def isdir(self, path):
+        self.fs.observe()
+        return str(path) in self.fs.dirs
+
+    def getsize(self, path):
+        self.fs.observe()
+        if str(path) not in self.fs.files:
+            raise FileNotFoundError(str(path))
+        return len(self.fs.files[str(path)].data)
 
 
 class ModelOS:
@@ -306,8 +358,40 @@ class ModelOS:
         self.fs = fs
         import os as _os
 
-        self.path = _os.path
+        self.path = ModelOSPath(fs)
         self.fspath = _os.fspath
+        self.sep = _os.sep
+        self.devnull = _os.devnull
+
+    def __getattr__(self, name):
+        raise AttributeError('os.%s is not modelled (vf/menv.py ModelOS)' % name)
+
+    def getpid(self):
+        return 4242
+
+    def rmdir(self, path):
+        self.fs.observe()
+        path = str(path)
+        if path not in self.fs.dirs:
+            raise FileNotFoundError(path)
+        pre = path + '/'
+        for q in list(self.fs.files) + list(self.fs.dirs):
+            if q.startswith(pre):
+                raise OSError(errno.ENOTEMPTY, 'Directory not empty', path)
+        self.fs.tick(('rmdir', path))
+        self.fs.dirs.discard(path)
+
+    def truncate(self, path, length):
+        self.fs.observe()
+        node = self.fs.files[str(path)]
+        self.fs.tick(('truncate', str(path), length))
+        node.data = node.data[:length]
+        if node.synced > length:
+            node.synced = length
+        node.touch()
+
+    def scandir(self, path):
+        return [_DirEntry(self.fs, str(path), name) for name in self.listdir(path)]
 
     def listdir(self, path):
         self.fs.observe()
@@ -1137,6 +1221,7 @@ def install(fs, dbs, C, U):
         return StatResult(len(fs.fdtable[fd].node.data), False)
 
     mos.fstat = fstat
+    fs.os, fs.open = mos, mopen
     for M in (C, U):
         M.os = mos
         M.open = mopen
@@ -1199,8 +1284,57 @@ def make_path_class(fs):
                 return StatResult(0, True)
             raise FileNotFoundError(s)
 
-        def resolve(self):
+        def resolve(self, strict=False):
             return self
+
+        def is_dir(self):
+            fs.observe()
+            return str(self) in fs.dirs
+
+        def unlink(self, missing_ok=False):
+            try:
+                fs.os.remove(str(self))
+            except FileNotFoundError:
+                if not missing_ok:
+                    raise
+
+        def rename(self, target):
+            fs.os.rename(str(self), str(target))
+            return type(self)(str(target))
+
+        def replace(self, target):
+            fs.os.replace(str(self), str(target))
+            return type(self)(str(target))
+
+        def mkdir(self, mode=0o777, parents=False, exist_ok=False):
+            if parents:
+                fs.os.makedirs(str(self), exist_ok=exist_ok)
+                return
+            try:
+                fs.os.mkdir(str(self))
+            except FileExistsError:
+                if not exist_ok:
+                    raise
+
+        def rmdir(self):
+            fs.os.rmdir(str(self))
+
+        def iterdir(self):
+            return [self / name for name in fs.os.listdir(str(self))]
+
+        def open(self, mode='r', **kw):
+            return fs.open(str(self), mode, **kw)
+
+        def read_bytes(self):
+            with fs.open(str(self), 'rb') as handle:
+                return handle.read()
+
+        def touch(self, exist_ok=True):
+            if str(self) not in fs.files:
+                fs.open(str(self), 'wb').close()
+
+        def samefile(self, other):
+            return str(self) == str(other)
 
     return MPath
 
